@@ -329,7 +329,7 @@ def brief(ev, n=300):
         for k in ("asn", "input", "src"):
             if k in ev:
                 s = ev[k] if isinstance(ev[k], str) else json.dumps(ev[k])
-                return s[:n]
+                return s.replace("\n", " | ")[:n]
     s = json.dumps(ev)
     return s[:n]
 
